@@ -73,6 +73,8 @@ def write_cfg(path, constants, invariants=(), init="Init", nxt="Next", post=None
     for k, v in constants.items():
         if isinstance(v, tuple) and v[0] == "<-":
             lines.append(f"CONSTANT {k} <- {v[1]}")
+        elif isinstance(v, tuple) and v[0] == "=":
+            lines.append(f"CONSTANT {k} = {v[1]}")
         elif isinstance(v, bool):
             lines.append(f"CONSTANT {k} = {'TRUE' if v else 'FALSE'}")
         elif isinstance(v, str):
